@@ -5,6 +5,8 @@
 From Coq Require Import List String ZArith Bool.
 From Verif Require Import UnionModel UnionProofs UnionDeep UnionDeepProofs UnionEmit K19Proofs.
 From VerifGen Require Import K19.
+From Verif Require PackEmit K21Proofs.
+From VerifGen Require K21.
 Import ListNotations.
 Open Scope string_scope.
 Open Scope Z_scope.
@@ -265,6 +267,28 @@ Proof.
   discriminate H.
 Qed.
 Print Assumptions C11_union_encode_refuted.
+
+(* ---------- K21: the translated loops of pack.py:pack_union ---------- *)
+(* K21.emit is re-translated from /repo on every run; the method it describes computes pack_union *)
+Theorem C11_pack_emit_correct : forall pms v, pms <> [] ->
+  PackEmit.run_pres (K21.emit pms) v = pack_union pms v.
+Proof. exact K21Proofs.emit_pack_correct. Qed.
+Print Assumptions C11_pack_emit_correct.
+
+(* hence the packer the current source emits picks the matching member on the stated domain *)
+Theorem C11_pack_emitted_partial : forall pms v m, pms <> [] -> pcoherent pms v ->
+  In m pms -> p_accepts m v = true -> wire_disjoint pms v = true ->
+  PackEmit.run_pres (K21.emit pms) v = p_out m v.
+Proof. intros. rewrite K21Proofs.emit_pack_correct by assumption. apply pack_union_partial; assumption. Qed.
+Print Assumptions C11_pack_emitted_partial.
+
+Example C11_pack_emit_nonvacuous :
+  let d := fun v => match v with UObj "date" _ => Some (UStr "2020-01-01") | _ => None end in
+  let pms := [PM "date" (Some 1%nat) d; PM "str" None Some; PM "int" None Some; PM "date" (Some 1%nat) d] in
+  K21.emit pms = PackEmit.PMethod [PackEmit.PLIdent (PackEmit.PIn ["str"; "int"]); PackEmit.PLTry (PM "date" (Some 1%nat) d); PackEmit.PLRaise] /\
+  K21.emit [PM "str" None Some; PM "int" None Some] = PackEmit.PIdentity /\
+  PackEmit.run_pres (K21.emit pms) (UObj "date" "datetime.date(2020, 1, 1)") = Some (UStr "2020-01-01").
+Proof. cbv zeta. repeat split; reflexivity. Qed.
 
 (* ---------- Literal (after fix 0e88a65: the class of the value is compared too) ---------- *)
 
